@@ -130,6 +130,9 @@ def mutation_findings(o, strict=True, db=None):
                             % (e["attr"], show(e["key"], 60), ", ".join(show(a, 30) for a in miss[:3]), show(miss[0], 30)), e))
         elif e["kind"] == "dict_store" and not e["in_init"] and (e["obj"].cls.qualname, e["attr"]) not in TABLED_CACHES:
             out.append(("state-store", "entry stored into dict attribute self.%s (hidden per-object state)" % e["attr"], e))
+        elif e["kind"] == "raw_arith":
+            out.append(("raw-dtype-arithmetic", "%s on values that still have the caller's score dtype (%s): for unsigned-integer scores the result wraps around instead of going negative"
+                        % (e["op"], e.get("text", "")[:60]), e))
         elif e["kind"] == "foreign_attr_store":
             out.append(("attr-store", "attribute %s of a foreign object re-bound" % e["attr"], e))
     return out
